@@ -75,6 +75,12 @@ WITNESS = {
             "INCLUDING the sign, so -0012 is written '-12' (not a legal year) and a one-digit negative year writes one "
             "character more than the caller allocated (getDateCanonicalRepresentation: heap overflow by one XMLCh, seen "
             "as `free(): invalid next size` on `can date -0001-12-31Z`)"),
+    "F40": (["xsc double " + G.hx("0.001"), "can float " + G.hx("0.01")],
+            ["ok " + G.hx("0.01E-1"), "ok " + G.hx("0.1E-1")], "f40",
+            "canonical representation of xs:double / xs:float values below 0.1 written with zeros after the decimal point: "
+            "XMLAbstractDoubleFloat::getCanonicalRepresentation takes manBuf[0] as the single non-zero digit, but "
+            "XMLBigDecimal::parseDecimal keeps the zeros between the point and the first significant digit, so 0.001 -> "
+            "'0.01E-1' (expected 1.0E-3): not canonical (3.2.4.2) and not idempotent (0.01E-1 -> 0.1E-2)"),
     "F12": (["xsv base64Binary " + G.hx("\u0141AAA"), "pe base64Binary " + G.hx("\u0141AAA"),
              "xsv base64Binary " + G.hx("AAAA\u0100!!")], ["1", "valid", "1"], "f12",
             "base64Binary narrows UTF-16 code units to bytes: a character >= U+0100 whose low byte is a base64 letter is "
@@ -233,12 +239,6 @@ def run(ctx):
     for fid, n in attributed.items():
         ctx.note("%d generated cases attributed to %s" % (n, fid))
     ctx.coverage["attributed_to_known_findings"] = attributed
-    unexplained = [d for d in divergences if d[4] != "violates"]
-    if unexplained and not nviol:
-        kind, req, i, m, sv = unexplained[0]
-        ctx.violation("correspondence", {"what": "model and implementation differ but the Spec oracle found no failing "
-                                         "input: correspondence xh_C09~xm_C09 no longer checks", "request": req,
-                                         "impl": i, "model": m, "count": len(unexplained)}, no_input=True)
 
     # ---- 3b. follow-up requests built from the implementation's answers (canonical forms judged by the Spec,
     #          idempotence asked from the implementation itself)
@@ -267,6 +267,13 @@ def run(ctx):
                     ctx.violation("canonical", {"request": orig, "requests": [orig, q], "followup": q, "answer": a,
                                                 "expected": want, "what": what})
     ctx.coverage["followups"] = len(fu)
+    # model and implementation differ although neither the Spec oracle nor the follow-ups found a failing input
+    unexplained = [d for d in divergences if d[4] != "violates"]
+    if unexplained and not nviol:
+        kind, req, i, m, sv = unexplained[0]
+        ctx.violation("correspondence", {"what": "model and implementation differ but the Spec oracle found no failing "
+                                         "input: correspondence xh_C09~xm_C09 no longer checks", "request": req,
+                                         "impl": i, "model": m, "count": len(unexplained)}, no_input=True)
 
     # ---- 4. cross-API agreement and order axioms on the implementation's own answers
     if not ctx.replay:
